@@ -355,6 +355,23 @@ func generate(r *lib.Run, rng *lib.Rand) []scenario {
 		scs = append(scs, scenario{next0: 700, class: "dst", toks: strings.Fields(
 			"vdr.0 s br.1.g.400 s f.dst4.1.0.1 s w.1 br.2.g.400 b4.3.g.400 f.dst4.3.0.8 f.dst4.2.0.15 s w.2 w.3 s vdr.4 s")})
 	}
+	// SLOW SEND: the connection's WriteTo takes longer than the ping's timeout.  The code arms its timer AFTER
+	// the send returned, so (a) a reply parsed during the slow write (inline or by another goroutine) completes
+	// the call however long the write takes, and (b) without a reply the call returns ErrTimeout no earlier
+	// than timeout after the write returned (early oracle measured from the return of WriteTo).  >= 20 tries of
+	// (a) per run: a timer armed before the send makes both select branches ready and fails half of them.
+	for k := 0; k < 4; k++ {
+		var t []string
+		for j := 0; j < 6; j++ {
+			p := j
+			fam := []string{"4", "6", "r"}[(k+j)%3]
+			rep := map[string]string{"4": "rep4", "6": "rep6", "r": "dst4"}[fam]
+			inj := []string{"f", "fg"}[(k+j)%2]
+			t = append(t, fmt.Sprintf("q%s.%d.15", fam, p), fmt.Sprintf("%s.%s.%d.0.%d", inj, rep, p, j), "sl.35", fmt.Sprintf("z.%d.T", p), fmt.Sprintf("w.%d", p))
+		}
+		t = append(t, "s", "q4.6.40", "sl.90", "z.6.T", "w.6", "q6.7.40", "sl.90", "z.7.T", "w.7", "s")
+		scs = append(scs, scenario{next0: uint16(1000 + 10*k), class: "slow", toks: t})
+	}
 	// each path in isolation: a process in which only Ping (IPv4) calls and IPv4 frames occur, one with only
 	// Ping6 and IPv6 frames, one with only the router-source ping: a change to one path alone has a failing
 	// input that involves nothing else
